@@ -216,6 +216,15 @@ func attJudge(input string, xml []byte, cfgi int, sp *saml2.SAMLServiceProvider)
 			add("C07/encrypted-assertion-not-direct-child-accepted")
 		}
 	}
+	// C07: the same obligations apply when the state carries an EncryptedAssertion
+	if ok && encDirectOrAny(xml) {
+		for _, k := range keys {
+			if strings.HasPrefix(k, "C01/") {
+				add("C07/encrypted-assertion-state/" + strings.TrimPrefix(k, "C01/"))
+				break
+			}
+		}
+	}
 	// C01 (iv) / C04: the summary mirrors the first returned assertion and the Response flag
 	if r2.Accepted() {
 		if info.ResponseSignatureValidated != resp.SignatureValidated {
@@ -408,3 +417,9 @@ func init() {
 var _ = etree.NewDocument
 var _ = saml2.StatusCodeSuccess
 var _ types.Response
+
+// encDirectOrAny reports whether the document contains an EncryptedAssertion anywhere.
+func encDirectOrAny(xml []byte) bool {
+	d := parseDoc(xml)
+	return d != nil && d.Root() != nil && len(allOf(d.Root(), idp.NSA, "EncryptedAssertion")) > 0
+}
